@@ -29,6 +29,8 @@ pub struct GenCfg {
     pub mapref_shape: usize,
     /// probability (in 1/16) of starting with the kept-scope-node shape
     pub kept_shape: usize,
+    /// bind whose every table entry is one pre-existing node, with a cutoff on the bind node
+    pub same_rhs_shape: usize,
     /// weight multipliers
     pub w_create: usize,
     pub w_write: usize,
@@ -59,6 +61,7 @@ impl GenCfg {
             sibling_shape: 3,
             mapref_shape: 2,
             kept_shape: 1,
+            same_rhs_shape: 1,
             w_create: 10,
             w_write: 10,
             w_observe: 6,
@@ -279,7 +282,16 @@ impl Gen {
             let v = *rng.pick(&vars);
             self.writer_targets.insert(v);
             let c = *self.var_const.entry(v).or_insert_with(|| rng.range(0, 4));
-            ops.push(InOp::Write(v, WriteOp::Set(c)));
+            // ... but on the way there any operation may come first: a handler's writes take
+            // effect at once, in program order, after the round's deferred writes (the `get` and
+            // the values `replace` returns say so)
+            if rng.chance(1, 3) {
+                ops.push(InOp::ReadVar(v));
+            }
+            for _ in 0..rng.below(3) {
+                ops.push(InOp::Write(v, write_op(rng)));
+            }
+            ops.push(InOp::Write(v, if rng.chance(1, 2) { WriteOp::Set(c) } else { WriteOp::Replace(c) }));
         }
         if !w.observers.is_empty() && rng.chance(1, 3) {
             ops.push(InOp::ReadObs(rng.below(w.observers.len())));
@@ -613,6 +625,41 @@ impl Gen {
         self.plan.push_back(Action::Stabilise);
     }
 
+    /// a bind whose closure hands back the same pre-existing node whatever its input, with a
+    /// cutoff of its own on the bind node and a function node downstream: when the bind's input
+    /// changes the closure re-runs, the bind node is recomputed with an unchanged value, and what
+    /// the dependant does is decided by the bind node's cutoff alone
+    fn shape_bind_same_rhs(&mut self, w: &World, rng: &mut Rng) {
+        let base = w.model.nodes.len();
+        let vbase = w.model.vars.len();
+        self.plan.push_back(Action::NewVar(Val::I(rng.range(0, 4)))); // a: node base
+        self.plan.push_back(Action::NewVar(Val::I(rng.range(0, 4)))); // x: node base+1
+        self.plan.push_back(Action::Create(Kind::Map(f1(rng), base + 1))); // m: base+2
+        let m = base + 2;
+        let table: Vec<Rc<Tm>> = (0..2 + rng.below(2)).map(|_| Rc::new(Tm::Ref(m))).collect();
+        self.plan.push_back(Action::Create(Kind::Bind(base, table))); // b: base+3
+        let b = base + 3;
+        let k = *rng.pick(&[CutoffKind::Never, CutoffKind::LogNever, CutoffKind::LogEq, CutoffKind::Never, CutoffKind::Default]);
+        self.plan.push_back(Action::SetCutoff(b, k));
+        self.plan.push_back(Action::Create(Kind::Map(f1(rng), b))); // d: base+4
+        self.plan.push_back(Action::Observe(base + 4));
+        if rng.chance(1, 3) {
+            self.plan.push_back(Action::Observe(m));
+        }
+        self.plan.push_back(Action::Stabilise);
+        for _ in 0..2 + rng.below(3) {
+            match rng.below(4) {
+                0 => self.plan.push_back(Action::Write(vbase + 1, WriteOp::UpdateAdd(1))),
+                1 => {
+                    self.plan.push_back(Action::Write(vbase, WriteOp::UpdateAdd(1)));
+                    self.plan.push_back(Action::Write(vbase + 1, WriteOp::UpdateAdd(rng.range(0, 1))));
+                }
+                _ => self.plan.push_back(Action::Write(vbase, WriteOp::UpdateAdd(1 + rng.range(0, 2)))),
+            }
+            self.plan.push_back(Action::Stabilise);
+        }
+    }
+
     fn shape_mapref(&mut self, w: &World, rng: &mut Rng) {
         let base = w.model.nodes.len();
         let vbase = w.model.vars.len();
@@ -677,6 +724,10 @@ impl Gen {
                 self.shape_kept_scope_node(w, rng);
                 return self.plan.pop_front();
             }
+            if self.cfg.binds && self.cfg.cutoffs && rng.below(16) < self.cfg.same_rhs_shape {
+                self.shape_bind_same_rhs(w, rng);
+                return self.plan.pop_front();
+            }
         }
         if w.model.vars.len() < 2 {
             return Some(Action::NewVar(if rng.chance(1, 3) { pset(rng.range(0, 4)) } else { Val::I(rng.range(0, 4)) }));
@@ -732,7 +783,7 @@ impl Gen {
                         }
                         if !self.cfg.lossy_cutoffs
                             && matches!(k, CutoffKind::Never | CutoffKind::LogNever)
-                            && matches!(info.kind, Kind::Bind(..) | Kind::Zip(..) | Kind::MapRef(..) | Kind::Const(..))
+                            && matches!(info.kind, Kind::Zip(..) | Kind::MapRef(..) | Kind::Const(..))
                         {
                             continue;
                         }
